@@ -3,8 +3,8 @@ import Rivaas.Model.RealIP
 C18 — the text layer of `router/proxies.go`: `splitAndTrim`, `parseOneIP` and the header lookup,
 at byte level. `net.ParseIP`/`IPNet.Contains` stay parameters: the case carries a table
 `trimmed item ↦ (canonical text, trusted?)` computed by the real `net` package, and the model looks
-every item it produces up in that table. Unicode white space (which `strings.TrimSpace` also trims)
-is outside this model: the generator emits ASCII white space only. Core Lean only.
+every item it produces up in that table. `strings.TrimSpace` is modelled completely (Unicode white space
+included, by its UTF-8 byte patterns). Core Lean only.
 -/
 namespace Rivaas.RealIP
 
@@ -12,12 +12,52 @@ namespace Rivaas.RealIP
 def isSpace (c : Char) : Bool :=
   c == ' ' || c == '\t' || c == '\n' || c == '\x0b' || c == '\x0c' || c == '\r'
 
-def trimLeft : Bytes → Bytes
-  | [] => []
-  | c :: cs => if isSpace c then trimLeft cs else c :: cs
+private def b (n : Nat) : Char := Char.ofNat n
 
-/-- `strings.TrimSpace` on ASCII input -/
-def trim (s : Bytes) : Bytes := (trimLeft (trimLeft s).reverse).reverse
+/-- every byte sequence `strings.TrimSpace` removes as one rune: the six ASCII spaces and the UTF-8
+    encodings of the non-ASCII code points `unicode.IsSpace` accepts (U+0085, U+00A0, U+1680,
+    U+2000–U+200A, U+2028, U+2029, U+202F, U+205F, U+3000). A pattern is a valid minimal UTF-8 sequence
+    beginning with a start byte, so "is a prefix / suffix of the string" coincides with what
+    `utf8.DecodeRune` / `utf8.DecodeLastRune` decode there; anything else (invalid bytes, a lone 0x85 or
+    0xA0, other runes) stops the trim. -/
+def spacePats : List Bytes :=
+  [[' '], ['\t'], ['\n'], ['\x0b'], ['\x0c'], ['\r'],
+   [b 0xC2, b 0x85], [b 0xC2, b 0xA0], [b 0xE1, b 0x9A, b 0x80],
+   [b 0xE2, b 0x80, b 0x80], [b 0xE2, b 0x80, b 0x81], [b 0xE2, b 0x80, b 0x82], [b 0xE2, b 0x80, b 0x83],
+   [b 0xE2, b 0x80, b 0x84], [b 0xE2, b 0x80, b 0x85], [b 0xE2, b 0x80, b 0x86], [b 0xE2, b 0x80, b 0x87],
+   [b 0xE2, b 0x80, b 0x88], [b 0xE2, b 0x80, b 0x89], [b 0xE2, b 0x80, b 0x8A],
+   [b 0xE2, b 0x80, b 0xA8], [b 0xE2, b 0x80, b 0xA9], [b 0xE2, b 0x80, b 0xAF],
+   [b 0xE2, b 0x81, b 0x9F], [b 0xE3, b 0x80, b 0x80]]
+
+/-- `some rest` when `p` is a prefix of `s` -/
+def stripPrefix : Bytes → Bytes → Option Bytes
+  | [], s => some s
+  | _ :: _, [] => none
+  | a :: p, c :: s => if a == c then stripPrefix p s else none
+
+/-- remove one leading pattern, if any matches -/
+def stripOne : List Bytes → Bytes → Option Bytes
+  | [], _ => none
+  | p :: ps, s => match stripPrefix p s with
+    | some r => some r
+    | none => stripOne ps s
+
+/-- strip leading patterns while one matches (`fuel` ≥ length always suffices: every pattern is non-empty;
+    adequacy is `lemma_trimWith_fixed` in Props/C18) -/
+def trimWith (pats : List Bytes) : Nat → Bytes → Bytes
+  | 0, s => s
+  | fuel + 1, s => match stripOne pats s with
+    | some r => trimWith pats fuel r
+    | none => s
+
+/-- `strings.TrimLeftFunc(s, unicode.IsSpace)` -/
+def trimLeft (s : Bytes) : Bytes := trimWith spacePats s.length s
+
+/-- `strings.TrimRightFunc(s, unicode.IsSpace)`: the same on the reversed string with reversed patterns -/
+def trimRight (s : Bytes) : Bytes := (trimWith (spacePats.map List.reverse) s.length s.reverse).reverse
+
+/-- `strings.TrimSpace` (its ASCII fast path is an optimisation of exactly this) -/
+def trim (s : Bytes) : Bytes := trimRight (trimLeft s)
 
 /-- `strings.Split(s, ",")`: the current field is accumulated in `cur` (reversed) -/
 def splitComma : Bytes → Bytes → List Bytes
